@@ -152,14 +152,17 @@ func (s *Store[H]) Stop(ctx context.Context) error {
 	// signal to prevent further writes to Store
 	select {
 	case s.writes <- nil:
-		s.cancel()
 	case <-ctx.Done():
 		return ctx.Err()
 	}
 	// wait till it is done writing
+	// NOTE: the flush loop's context is cancelled only afterwards, the queued batches still
+	// have to advance Head and Tail over what they add
 	select {
 	case <-s.writesDn:
+		s.cancel()
 	case <-ctx.Done():
+		s.cancel()
 		return ctx.Err()
 	}
 
